@@ -3,6 +3,7 @@ package spec
 import (
 	"fmt"
 	"math/big"
+	"sync"
 )
 
 // Level of a metric group.
@@ -44,12 +45,18 @@ func (m *Metric) Has(code string) bool { return m.Index(code) >= 0 }
 
 // R parses a decimal literal exactly.
 func R(s string) *big.Rat {
+	if r, ok := ratCache.Load(s); ok {
+		return r.(*big.Rat) // never mutated: all arithmetic helpers allocate their result
+	}
 	r, ok := new(big.Rat).SetString(s)
 	if !ok {
 		panic("bad decimal literal " + s)
 	}
+	ratCache.Store(s, r)
 	return r
 }
+
+var ratCache sync.Map
 
 // Weight returns the exact weight of a code (changed selects the changed-scope table
 // for PR/MPR). It panics for codes without a weight.
